@@ -780,3 +780,67 @@ C04["_prev_extra"] = C04.get("extra_traces")
 C04["extra_traces"] = _hook_traces("EsOp", "Trace_StoreHook.tla")
 C01["_prev_extra"] = C01.get("extra_traces")
 C01["extra_traces"] = _hook_traces("AuthzHook", "Trace_AuthzHook.tla")
+
+
+# ----------------------------------------------------------------- C06
+def _unmark(x):
+    """replace the {"__long": i64} / {"__str": code points} markers of Est.tla by JSON numbers / strings; [] for empty objects"""
+    if isinstance(x, dict):
+        if set(x) == {"__long"}:
+            neg, limbs = x["__long"]
+            n = 0
+            for l in reversed(limbs):
+                n = n * 10000 + l
+            return -n if neg else n
+        if set(x) == {"__str"}:
+            return "".join(chr(c) for c in x["__str"])
+        return {k: _unmark(v) for k, v in x.items()}
+    if isinstance(x, list):
+        return [_unmark(v) for v in x]
+    return x
+
+
+def _formats_case(world, c, i):
+    pol = c["policy"]
+    pol = dict(pol, annotations=[[kv[0], "".join(chr(x) for x in kv[1])] for kv in pol.get("annotations", [])])
+    est = _unmark(c["est"])
+    if est.get("annotations") == []:
+        est["annotations"] = {}
+
+    def fix_records(x):
+        if isinstance(x, dict):
+            return {k: ({} if k == "Record" and v == [] else fix_records(v)) for k, v in x.items()}
+        if isinstance(x, list):
+            return [fix_records(v) for v in x]
+        return x
+    return dict(id=i, policy=pol, est=fix_records(est))
+
+
+def _mutate_formats(ev):
+    if ev.get("ev") != "Formats":
+        return None
+    ev = json.loads(json.dumps(ev))
+    h = ev["hops"]["to_json_from_json"]
+    if "effect" in h:
+        h["effect"] = "forbid" if h["effect"] == "permit" else "permit"
+    else:
+        ev["hops"]["to_json_from_json"] = ev["p0"]
+        ev["p0"] = dict(ev["p0"], effect="x")
+    return ev
+
+
+C06 = dict(
+    family="formats", trace_module="Trace_Formats.tla",
+    models=[dict(name="mc_formats", module="MC_Formats.tla", cfg=dict(quick="MC_Formats.cfg", thorough="MC_Formats.cfg"), cases=_formats_case)],
+    nontrivial=lambda ev: ev.get("ev") == "Formats",
+    key=lambda ev: ev.get("policy"),
+    mutate=_mutate_formats, chunk=800,
+    rule="G: 2877 policies and templates over World: every binary operator x 12 left / 4 right leaves (i64 extremes, escape-heavy strings, entities, records with reserved keys, "
+         "extension calls), unary / && / || / . / has / is / like (patterns with wildcard, literal star, quote, backslash, non-BMP) / if / sets / records / extension calls, as when and "
+         "as unless; every principal x action x resource scope form incl. slots, is..in and empty action lists; 0-3 clauses; annotations with escapes. For each, Est.tla's EstOf(policy) is "
+         "parsed by from_json, and the policy parsed from text is taken through to_json/from_json, text->CST->EST->AST, PST, protobuf, and policy-set JSON / PST / protobuf (templates are "
+         "linked first: template id, new id and bindings must survive). Every projection must equal the text-parsed one.",
+    assumptions=["the tie between the abstract policy and its text-parsed projection is C05's (Parse(Render(a)) = Core(a)); here all hops are compared with that projection",
+                 "the policy projection (fam_syntax::policy_to_wire) is a faithful structural walk"],
+)
+FAMILIES["C06"] = C06
